@@ -140,6 +140,10 @@ func (f Frame) Split(maxByteSize int) (head Frame, tail Frame) {
 // Limit takes the last N elements, sorted by message time
 func (f *Frame) Limit(n int) {
 	f.Sort()
+	if n < 0 {
+		n = 0
+	}
+
 	if size := len(*f); size > n {
 		*f = (*f)[size-n:]
 	}
